@@ -130,6 +130,14 @@ func GenCfg(r *simrt.Rng, p *Profile) Cfg {
 				c.Weights = append(c.Weights, uint32(1+r.Intn(5)))
 			}
 		}
+		if !p.MidBound && r.Intn(12) == 0 {
+			// a maximum beyond 32 bits (the weigher's range) with a small remainder mod 2^32, and
+			// weights near the top of the weigher's range: 64-bit totals, nothing may be truncated
+			c.Max += uint64(1+r.Intn(3)) << 32
+			for i := 0; i < 1+r.Intn(2); i++ {
+				c.Weights = append(c.Weights, []uint32{1 << 31, 1<<32 - 1, 1 << 30, 1<<31 + 7}[r.Intn(4)])
+			}
+		}
 	}
 	exp := "none"
 	if !p.NoExp && (p.ForceExp || r.Intn(3) != 0) {
@@ -203,7 +211,7 @@ func GenCfg(r *simrt.Rng, p *Profile) Cfg {
 	if p.SmallReadBuf {
 		c.StripedMax = 1
 	}
-	c.Parallelism = []int{1, 2, 4, 8, 16}[r.Intn(5)]
+	c.Parallelism = []int{1, 2, 3, 4, 5, 6, 8, 12, 16}[r.Intn(9)]
 	if r.Intn(4) == 0 {
 		c.HashMode = 1
 	}
@@ -303,7 +311,10 @@ func (g *OpGen) genPlan(bulk bool, keys []int, allowPanic bool) *LoadPlan {
 	if g.curModel != nil && g.advOK && (g.Cfg.withExpiry() || g.Cfg.withRefresh()) && r.Intn(4) == 0 {
 		p.Adv = g.genAdvance(g.curModel) // the load takes (simulated) time
 	}
-	if bulk && p.Kind == "val" {
+	if bulk && p.Kind == "err" && r.Intn(2) == 0 {
+		p.ErrMap = true
+	}
+	if bulk && (p.Kind == "val" || p.ErrMap) {
 		for _, k := range keys {
 			if r.Intn(4) == 0 {
 				p.Omit = append(p.Omit, k)
